@@ -1,8 +1,11 @@
 ------------------------------- MODULE MC_C10 -------------------------------
+(* Session families for Concurrency.tla. *)
 EXTENDS Concurrency
-Two == [a |-> [user |-> "alice", ver |-> 12, nitems |-> 2], b |-> [user |-> "bob", ver |-> 10, nitems |-> 2]]
-Three == [a |-> [user |-> "alice", ver |-> 12, nitems |-> 1], b |-> [user |-> "bob", ver |-> 10, nitems |-> 1],
-          c |-> [user |-> "carol", ver |-> 20, nitems |-> 2]]
-Four == [a |-> [user |-> "alice", ver |-> 12, nitems |-> 1], b |-> [user |-> "bob", ver |-> 10, nitems |-> 1],
-         c |-> [user |-> "carol", ver |-> 20, nitems |-> 1], d |-> [user |-> "dave", ver |-> 14, nitems |-> 1]]
+Two == [a |-> [user |-> "alice", ver |-> 12, items |-> <<"create", "getph">>],
+        b |-> [user |-> "bob", ver |-> 10, items |-> <<"query", "create">>]]
+Three == [a |-> [user |-> "alice", ver |-> 12, items |-> <<"create", "getph">>],
+          b |-> [user |-> "bob", ver |-> 10, items |-> <<"query">>],
+          c |-> [user |-> "carol", ver |-> 20, items |-> <<"create", "query">>]]
+Four == [a |-> [user |-> "alice", ver |-> 12, items |-> <<"create">>], b |-> [user |-> "bob", ver |-> 10, items |-> <<"query">>],
+         c |-> [user |-> "carol", ver |-> 20, items |-> <<"getph">>], d |-> [user |-> "dave", ver |-> 14, items |-> <<"create", "getph">>]]
 =============================================================================
